@@ -235,6 +235,28 @@ pub fn generate(tier: Tier, rng: &mut Rng) -> Vec<Case> {
             push(&mut out, sp, format!("[{m}].all(e, has(e.k)) && [{m}].exists(e, 'k' in e) && size({m}) == 2"), Some("(ok (bool 1))".to_string()), vec!["map", "zero-valued-entry"]);
         }
     }
+    // the map that is asked may itself be reached by selection: has() over a path of two or three
+    // steps agrees with the other routes applied to the map the path leads to
+    {
+        let inner = |present: bool| { let mut hm = HashMap::new(); hm.insert(Key::String(Arc::new("b".into())), Value::String(Arc::new("x".into()))); if present { hm.insert(Key::String(Arc::new("a".into())), Value::Int(1)); } Value::Map(Map { map: Arc::new(hm) }) };
+        for present in [false, true] {
+            let ilit = if present { "{'a': 1, 'b': 'x'}" } else { "{'b': 'x'}" };
+            let mut o = HashMap::new();
+            o.insert(Key::String(Arc::new("inner".into())), inner(present));
+            o.insert(Key::String(Arc::new("n".into())), Value::Int(7));
+            let mut deep = HashMap::new();
+            deep.insert(Key::String(Arc::new("mid".into())), Value::Map(Map { map: Arc::new(o.clone()) }));
+            let mut spec = CtxSpec::default_ctx();
+            spec.vars.push(("o".into(), Value::Map(Map { map: Arc::new(o) })));
+            spec.vars.push(("d".into(), Value::Map(Map { map: Arc::new(deep) })));
+            let olit = format!("{{'inner': {ilit}, 'n': 7}}");
+            let dlit = format!("{{'mid': {olit}}}");
+            for (sp, path) in [(&spec, "o.inner".to_string()), (&default, format!("{olit}.inner")), (&spec, "d.mid.inner".to_string()), (&default, format!("{dlit}.mid.inner")), (&spec, "o['inner']".to_string()), (&spec, "d.mid['inner']".to_string())] {
+                push(&mut out, sp, format!("[has({path}.a), 'a' in {path}, {path}.contains('a'), {path}['a'] != null, has({path}.b), {path}.b == {path}['b']]"), Some(format!("(ok (list {0} {0} {0} {0} (bool 1) (bool 1)))", b(present))), vec!["map", "has-over-path"]);
+            }
+            push(&mut out, &spec, "[has(o.inner), has(o.n), has(o.absent), has(d.mid.inner), has(d.mid.absent), has(d.mid)]".into(), Some("(ok (list (bool 1) (bool 1) (bool 0) (bool 1) (bool 0) (bool 1)))".into()), vec!["map", "has-over-path"]);
+        }
+    }
     // lists: every index in -2..len+1 and the i64 extremes
     let vals = [7i64, -8, 9, 0];
     for len in 0..=4usize {
